@@ -327,7 +327,7 @@ Definition modelled_loops : list entry := [
   (* while value_list *)
   ("yabgp/message/attribute/community.py", "Community.parse", 222136028617482, 1, [fixed_strict 2]);
   (* while value *)
-  ("yabgp/message/attribute/extcommunity.py", "ExtCommunity.parse", 236813683373584, 1, [extcomm]);
+  ("yabgp/message/attribute/extcommunity.py", "ExtCommunity.parse", 82221732120692, 1, [extcomm]);
   (* while value_list *)
   ("yabgp/message/attribute/largecommunity.py", "LargeCommunity.parse", 189469990219683, 1, [fixed_strict 3]);
   (* while value *)
